@@ -21,12 +21,14 @@ import (
 type Case struct {
 	File   ag.File `json:"file"`
 	Passes int     `json:"passes"`
+	Hold   int     `json:"held_at_once"` // the consumer acquires this many ammo before it reads any of them
 }
 
 func genCase(t *rapid.T) Case {
 	format := rapid.SampledFrom([]string{"uri", "uripost", "raw", "jsonline"}).Draw(t, "format")
 	c := Case{File: ag.Gen(t, format, ag.GenOpts{MinEntries: 1, MaxEntries: 8, AllowBig: true})}
 	c.Passes = rapid.IntRange(1, 3).Draw(t, "passes")
+	c.Hold = rapid.SampledFrom([]int{1, 1, 2, 4}).Draw(t, "hold")
 	return c
 }
 
@@ -50,7 +52,7 @@ func check(c Case, o *vf.Obs) error {
 	}
 	total := len(want) * c.Passes
 	k := 0
-	res, err := provrun.Drain(p, total+3, 1, 20*time.Second, func(a core.Ammo) error {
+	res, err := provrun.DrainHeld(p, total+3, c.Hold, 20*time.Second, func(a core.Ammo) error {
 		if k >= total {
 			k++
 			return nil
@@ -103,6 +105,7 @@ func check(c Case, o *vf.Obs) error {
 	o.ClassIf(f.Layout.JSON == "array", "json_array")
 	o.ClassIf(f.Layout.JSON == "pretty", "json_pretty")
 	o.ClassIf(c.Passes > 1, "multi_pass")
+	o.ClassIf(c.Hold >= 2, "several_ammo_held_at_once")
 	o.ClassIf(f.Big, "file_larger_than_reader_buffer")
 	if len(ents) >= 2 && (f.Layout.LayoutKnobOn() || f.MidFileDirective() || binary) {
 		o.NonTrivial()
